@@ -367,6 +367,21 @@ def drive_c06(item, rec):
             raise C.Machinery("gene list of the built model differs from the instance")
         return model, rxns, genes
 
+    def rewritten():
+        """the same model reached through history: richer rules ("(rule) or gX"), a complete gene deletion on them,
+        then remove_genes(model, [gX], remove_reactions=False) rewrites every rule in place"""
+        from cobra.manipulation import remove_genes
+        MB2 = dict(MB)
+        gx = pal["gx"].format("gX")
+        MB2["rules"] = [("(%s) or %s" % (t, gx)) if t else t for t in MB["rules"]]
+        model, rxns, mets = build_model(MB2, pal)
+        single_gene_deletion(model, processes=1)
+        remove_genes(model, [gx], remove_reactions=False)
+        genes = [model.genes.get_by_id(pal["gx"].format(g)) for g in M["genes"]]
+        if len(model.genes) != len(genes):
+            raise C.Machinery("gene list of the rewritten model differs from the instance")
+        return model, rxns, genes
+
     shared = fresh()
     events = []
     for j, cl in enumerate(inst["calls"]):
@@ -380,7 +395,7 @@ def drive_c06(item, rec):
         k = cl["k"]
         isr = k in ("srd", "drd", "ess_r")
         # calls from a prior knock-out state get their own model object (the state may be permanent)
-        model, rxns, genes = shared if cl["pmode"] == "none" else fresh()
+        model, rxns, genes = shared if cl["pmode"] == "none" else (rewritten() if cl["pmode"] == "rewritten" else fresh())
         ids = [r.id for r in rxns]
         rpos = {r.id: i + 1 for i, r in enumerate(rxns)}
         gpos = {g.id: i + 1 for i, g in enumerate(genes)}
@@ -498,6 +513,18 @@ def drive_c18(item, rec):
                 fresh, frx, _ = build_model(M, pal)
                 op = True if cl["opentrue"] else (cl["open"] if cl["open"] else False)
                 mc = False if cl["mc"] == 0 else (True if cl["mc"] == 1 else cl["mc"])
+                if cl.get("hist") == "flipped":
+                    # the same model object reached through history: every exchange written the other way round, one
+                    # (unjudged) call, every exchange flipped back in place
+                    exs = list(fresh.exchanges)
+                    for r in exs:
+                        r *= -1
+                    try:
+                        minimal_medium(fresh, cl["g"], exports=cl["exports"], minimize_components=mc, open_exchanges=op)
+                    except Exception:
+                        pass
+                    for r in exs:
+                        r *= -1
                 res = minimal_medium(fresh, cl["g"], exports=cl["exports"], minimize_components=mc, open_exchanges=op)
                 if res is None:
                     ev["none"] = True
